@@ -25,6 +25,7 @@ inductive FE where
   | ite (c a b : FE)                   -- `if c { return a }; … return b`
   | const (name : String)              -- math.MaxInt64, math.MaxInt, time.Second
   | conv (ty : String) (a : FE)        -- float64(x), int64(x), int(x), time.Duration(x)
+  | fail                               -- `return …, err` with a non-nil error
   | unsupported (what : String)
   deriving Repr, Inhabited
 
@@ -33,6 +34,7 @@ inductive FV where
   | f (x : F64)
   | i (z : Int)          -- an int64 (int, int64, time.Duration on amd64), or an untyped integer constant
   | b (v : Bool)
+  | err                  -- the function returned a non-nil error
   deriving Inhabited
 
 namespace FE
@@ -42,6 +44,7 @@ def asF : FV → F64
   | .f x => x
   | .i z => F64.ofInt z
   | .b _ => F64.ofInt 0
+  | .err => F64.ofInt 0
 
 /-- the `math` functions the F64 model has -/
 def prim1 (f : String) (v : FV) : Option FV :=
@@ -57,6 +60,8 @@ def arith (op : String) (a b : FV) : Option FV :=
   match a, b with
   | .b _, _ => none
   | _, .b _ => none
+  | .err, _ => none
+  | _, .err => none
   | .i x, .i y =>                 -- int64 arithmetic wraps around
     (match op with
      | "+" => some (.i (Rng.wrap64 (x + y)))
@@ -100,6 +105,7 @@ def convert (ty : String) (v : FV) : Option FV :=
   | "int64", .i z => some (.i z)
   | "int", .i z => some (.i z)
   | "time.Duration", .i z => some (.i z)
+  | "rune", .i z => some (.i z)
   | _, _ => none
 
 abbrev Defs := List (String × List (String × String) × FE)
@@ -114,6 +120,7 @@ def bindParams : List (String × String) → List FV → Option (List (String ×
   | (n, "float64") :: ps, .i z :: vs => (bindParams ps vs).map ((n, .f (F64.ofInt z)) :: ·)
   | (n, "int") :: ps, .i z :: vs => (bindParams ps vs).map ((n, .i z) :: ·)
   | (n, "int64") :: ps, .i z :: vs => (bindParams ps vs).map ((n, .i z) :: ·)
+  | (n, "rune") :: ps, .i z :: vs => (bindParams ps vs).map ((n, .i z) :: ·)
   | _, _ => none
 
 def lookupVar (env : List (String × FV)) (n : String) : Option FV :=
@@ -163,6 +170,7 @@ def eval (user : String → List FV → Option FV) (env : List (String × FV)) :
      | _ => none)
   | .const n => constant n
   | .conv ty a => (match eval user env a with | some v => convert ty v | none => none)
+  | .fail => some .err
   | .unsupported _ => none
 
 /-- one more level of calls among the translated functions -/
